@@ -69,6 +69,74 @@ def spell(toks, rnd, probe):
     return "".join(out)
 
 
+def lit(v):
+    """a specification value written as a template literal (closing braces are kept apart: `}}` would end the expression)"""
+    t = v["t"]
+    if t == "int":
+        return str(v["i"])
+    if t == "str":
+        return "'" + v["s"] + "'"
+    if t == "none":
+        return "none"
+    if t == "arr":
+        return "[" + ", ".join(lit(x) for x in v["xs"]) + "]"
+    if t == "map":
+        return "{" + ", ".join("'%s': %s" % (kv[0], lit(kv[1])) for kv in v["xs"]) + " }"
+    raise ValueError(t)
+
+
+CCTX = {"x": 3, "xs": [1, 2], "es": [], "m": {"a": 1, "b": 2}, "m2": {"b": 9, "c": 3}, "s": "pq", "y": 7, "n": None}
+
+
+def colls(C, tier):
+    """array / map literals with spreads and list comprehensions (MC_Coll): value compared through == with the expected
+    value written as a literal; the outer x must be untouched afterwards."""
+    with open(vp.SPEC + "/MC_Coll_run.cfg", "w") as f:
+        f.write(open(vp.SPEC + "/MC_Coll.cfg").read().replace("MaxItems = 3", "MaxItems = %d" % (3 if tier == "quick" else 4)))
+    r = vp.tlc("MC_Coll", "MC_Coll_run", workers=4, timeout=1200, name="c02-coll")
+    C.add_tlc(r, "MC_Coll (collection literals, spreads, comprehensions)")
+    seen, jobs, meta = set(), [], []
+    for v in r.tags["VEC"]:
+        if v["kind"] == "arr":
+            e = "[" + ", ".join(("..." if i["sp"] else "") + i["e"] for i in v["arr"]) + "]"
+        elif v["kind"] == "map":
+            e = "{" + ", ".join(("..." + i["e"]) if i["sp"] else ("'%s': %s" % (i["k"], i["e"])) for i in v["map"]) + " }"
+        else:
+            c = v["comp"]
+            e = "[" + c["body"] + " for " + ("k, x" if c["two"] else "x") + " in " + c["it"] + ((" if " + c["cond"]) if c["cond"] else "") + "]"
+        if e in seen:
+            continue
+        seen.add(e)
+        res = v["res"]
+        steps = [{"op": "render_str", "src": "{{ " + e + " }}", "auto": False}]
+        if res["r"] == "ok":
+            unordered = v["kind"] == "comp" and v["comp"]["two"]          # map iteration order is not specified
+            cmp_ = "(%s | sort) == (%s | sort)" % (e, lit(res["v"])) if unordered and len(res["v"]["xs"]) > 1 else "(%s) == %s" % (e, lit(res["v"]))
+            steps.append({"op": "render_str", "src": "{{ " + cmp_ + " }}|{{ (" + e + ") | length }}|{{ x }}|{{ k is defined }}", "auto": False})
+        jobs.append({"ctx": CCTX, "steps": steps})
+        meta.append((e, res))
+    out = vp.traced(jobs, C, "c02-coll")
+    for (e, res), rr, job in zip(meta, out, jobs):
+        C.count()
+        key = {"kind": "collection", "expr": e}
+        if any(x.get("panic") or x.get("abort") for x in rr):
+            C.violation(dict(key, kind="panic"), "panic evaluating `%s`" % e, {"job": job, "result": rr})
+            continue
+        if res["r"] == "unspec":
+            continue
+        C.nontrivial(["coll", e])
+        if res["r"] == "err":
+            if rr[0].get("ok"):
+                C.violation(dict(key, kind="coll-noerr"), "`%s` renders %r; the documentation makes it an error" % (e, rr[0].get("out")), {"job": job})
+            continue
+        want = "true|%d|3|false" % len(res["v"]["xs"])
+        got = rr[1].get("out") if rr[1].get("ok") else "error: " + (rr[1].get("msg") or rr[1].get("disp", ""))[:100]
+        if got != want:
+            C.violation(dict(key, kind="coll-value"), "`%s` is %s in the engine (== expected literal | length | outer x | k leaked: %r), the documentation gives %s" % (
+                e, rr[0].get("out") if rr[0].get("ok") else "an error", got, lit(res["v"])), {"job": job, "expected": res})
+    C.sample({"collection": meta[len(meta) // 2][0], "expected": meta[len(meta) // 2][1]})
+
+
 def run(tier):
     C = vp.Check("C02", tier, "exploration")
     maxops = 2 if tier == "quick" else 3
@@ -144,11 +212,13 @@ def run(tier):
                 C.violation(dict(key, kind="order"), "`%s` (valuation %d): evaluated leaves %s, the documentation implies %s%s" % (
                     mn, k, log, exp["log"], "" if p.get("ok") else " (and the probe spelling failed: %s)" % (p.get("msg") or "")[:80]),
                     {"job": job, "expected": exp, "got": p})
+    colls(C, tier)
     for k in (len(meta) // 2, 10, len(meta) - 3):
         C.sample({"minimal": meta[k][2], "full": meta[k][3], "valuation": meta[k][1], "expected": vecs[meta[k][0]]["r"][meta[k][1]]})
     C.assumptions += ["left-associativity of the non-`**` rows is the Python/Jinja2 convention the documentation defers to",
                       "unspecified (no-panic only): `~` on undefined/none/containers, == with undefined, ordering of equal non-numeric kinds, float arithmetic text, "
-                      "`**` with large operands, subscripting scalars, `in` on maps"]
+                      "`**` with large operands, subscripting scalars, `in` on maps",
+                      "collections: an undefined name as a literal element, one loop name over a map, `is odd` on a string, and the order of map iteration are unspecified"]
     return C.finish()
 
 
